@@ -295,7 +295,7 @@ func (c11) Run(c *Case, st *Stats) []Violation {
 		ch := make(chan *csvRow, c.Cap)
 		simrt.GoKind("prod", func() {
 			for _, r := range rows {
-				simrt.Yield(-2, "prod-send")
+				prodYield()
 				ch <- r
 			}
 			simrt.Yield(-3, "prod-close")
@@ -513,7 +513,7 @@ func (c11) Run(c *Case, st *Stats) []Violation {
 					ch := make(chan jsonRow, c.Cap)
 					simrt.GoKind("prod", func() {
 						for _, v := range vals {
-							simrt.Yield(-2, "prod-send")
+							prodYield()
 							ch <- v
 						}
 						simrt.Yield(-3, "prod-close")
@@ -604,7 +604,7 @@ func jsonRoundTrip[T any](c *Case, st *Stats, vals []T, eq func(a, b T) bool) (b
 	ch := make(chan T, c.Cap)
 	simrt.GoKind("prod", func() {
 		for _, v := range vals {
-			simrt.Yield(-2, "prod-send")
+			prodYield()
 			ch <- v
 		}
 		simrt.Yield(-3, "prod-close")
